@@ -1,7 +1,7 @@
 //! The world: one or two real `NetworkGraph`s (+ `P2PGossipSync`) under test, each shadowed by a
 //! reference model; `apply` executes one explicit `Action` and evaluates the oracles.
 
-use crate::model::{Lookup, Model, VChan, VDir, VNa, VNode, View};
+use crate::model::{Lookup, Model, RgsAnnD, RgsD, RgsUpdD, VChan, VDir, VNa, VNode, View, RGS_BACKDATE_SECS, STALE_SECS};
 use crate::universe::*;
 use bitcoin::constants::ChainHash;
 use bitcoin::TxOut;
@@ -32,6 +32,7 @@ pub const O_FORGED: &str = "C17-2 unauthentic data reflected";
 pub const O_REGRESS: &str = "C17-3 timestamp regression";
 pub const O_ORDER: &str = "C17-4 order independence";
 pub const O_ROUNDTRIP: &str = "C17-5 serialization round trip";
+pub const O_RGS: &str = "C17-6 rapid gossip sync result";
 
 pub struct NullLogger;
 impl Logger for NullLogger {
@@ -113,6 +114,8 @@ pub struct GenCfg {
 	pub w_chan_fail: u32,
 	pub w_node_fail: u32,
 	pub w_roundtrip: u32,
+	#[serde(default)]
+	pub w_rgs: u32,
 	/// percent of announcements delivered with a chain source
 	pub lookup_pct: u32,
 	/// percent of chain-source answers that are asynchronous
@@ -148,7 +151,46 @@ pub enum NaEntry {
 }
 
 #[derive(Clone, Debug, PartialEq, Serialize, Deserialize)]
+pub struct RgsAnnSpec {
+	pub scid: ScidRef,
+	pub a: usize,
+	pub b: usize,
+	pub sorted: bool,
+	/// version 2 only: funding amount carried as additional data
+	pub funding: Option<u64>,
+}
+
+#[derive(Clone, Debug, PartialEq, Serialize, Deserialize)]
+pub struct RgsUpdSpec {
+	pub scid: ScidRef,
+	pub dir: u8,
+	pub disabled: bool,
+	pub incremental: bool,
+	pub cltv: Option<u16>,
+	pub hmin: Option<u64>,
+	/// always present in generated snapshots (unique id, see `CuSpec::uid`)
+	pub base: Option<u32>,
+	pub prop: Option<u32>,
+	pub hmax: Option<u64>,
+}
+
+/// A rapid-gossip-sync snapshot, encoded by `encode_rgs` from the format description in
+/// lightning-rapid-gossip-sync/src/processing.rs.
+#[derive(Clone, Debug, PartialEq, Serialize, Deserialize)]
+pub struct RgsSpec {
+	pub version: u8,
+	pub chain_ok: bool,
+	pub latest_seen: u32,
+	pub with_time: bool,
+	pub anns: Vec<RgsAnnSpec>,
+	pub upds: Vec<RgsUpdSpec>,
+	pub defaults: (u16, u64, u32, u32, u64),
+}
+
+#[derive(Clone, Debug, PartialEq, Serialize, Deserialize)]
 pub enum Action {
+	/// apply a rapid-gossip-sync snapshot (`RapidGossipSync::update_network_graph_no_std`)
+	Rgs { g: usize, snap: RgsSpec },
 	/// channel_announcement; `signed`: through an entry point that verifies signatures;
 	/// `handler`: through `P2PGossipSync::handle_*` (after a wire encode/decode) instead of `NetworkGraph::update_*`
 	ChanAnn { g: usize, spec: CaSpec, signed: bool, handler: bool, utxo: UtxoPlan },
@@ -180,6 +222,7 @@ impl Action {
 			Action::NodeFail { .. } => "NodeFail",
 			Action::RoundTrip { .. } => "RoundTrip",
 			Action::Finish => "Finish",
+			Action::Rgs { .. } => "Rgs",
 		}
 	}
 	pub fn actor(&self) -> usize {
@@ -192,6 +235,7 @@ impl Action {
 			| Action::Prune { g, .. }
 			| Action::ChanFail { g, .. }
 			| Action::NodeFail { g, .. }
+			| Action::Rgs { g, .. }
 			| Action::RoundTrip { g, .. } => *g,
 			Action::Clock { .. } | Action::Finish => 9,
 		}
@@ -209,6 +253,8 @@ struct NaRec {
 #[derive(Default, Clone)]
 struct CaRec {
 	utxo_matchable: bool,
+	/// capacities vouched for by the trusted rapid-gossip-sync source
+	trusted_caps: BTreeSet<u64>,
 }
 
 /// One graph under test with everything that shadows it.
@@ -221,7 +267,7 @@ pub struct Gut {
 	futures: Vec<(u64, u64, UtxoFuture)>,
 	last_view: View,
 	ca_ok: BTreeMap<(u64, Pk, Pk), CaRec>,
-	cu_reg: BTreeMap<u32, CuRec>,
+	cu_reg: BTreeMap<u32, Vec<CuRec>>,
 	na_reg: BTreeMap<[u8; 32], NaRec>,
 	// order-mode bookkeeping
 	delivered: BTreeSet<u64>,
@@ -261,6 +307,14 @@ impl Gut {
 	}
 	pub fn outstanding(&self) -> usize {
 		self.futures.len()
+	}
+}
+
+fn register_cu(reg: &mut BTreeMap<u32, Vec<CuRec>>, desc: &CuDesc, trusted: bool) {
+	let v = reg.entry(desc.base).or_default();
+	match v.iter_mut().find(|r| r.desc == *desc) {
+		Some(r) => r.trusted |= trusted,
+		None => v.push(CuRec { desc: desc.clone(), trusted }),
 	}
 }
 
@@ -329,6 +383,109 @@ pub fn ldk_view(g: &Graph) -> (View, Option<String>) {
 		v.nodes.insert(pk_of(id), VNode { chans, ann });
 	}
 	(v, problem)
+}
+
+fn put_bigsize(out: &mut Vec<u8>, v: u64) {
+	out.extend_from_slice(&lightning::util::ser::BigSize(v).encode());
+}
+
+/// Encoder for rapid-gossip-sync snapshots, written from the format description in
+/// lightning-rapid-gossip-sync/src/processing.rs (versions 1 and 2, without node details).
+pub fn encode_rgs(version: u8, d: &RgsD) -> Vec<u8> {
+	let mut out = vec![76u8, 68, 75, version];
+	let chain = ChainHash::using_genesis_block(if d.chain_ok { NETWORK } else { WRONG_NETWORK });
+	out.extend_from_slice(&chain.to_bytes());
+	out.extend_from_slice(&d.latest_seen.to_be_bytes());
+	if version == 2 {
+		out.push(0); // no default node feature sets
+	}
+	let mut ids: Vec<Pk> = Vec::new();
+	for a in d.anns.iter() {
+		for n in [a.n1, a.n2] {
+			if !ids.contains(&n) {
+				ids.push(n);
+			}
+		}
+	}
+	out.extend_from_slice(&(ids.len() as u32).to_be_bytes());
+	for id in ids.iter() {
+		// version 2 keeps flags in the upper bits of the parity byte; none are set here
+		out.extend_from_slice(id);
+	}
+	out.extend_from_slice(&(d.anns.len() as u32).to_be_bytes());
+	let mut prev = 0u64;
+	for a in d.anns.iter() {
+		out.extend_from_slice(&[0, 0]); // empty channel features
+		put_bigsize(&mut out, a.scid - prev);
+		prev = a.scid;
+		let i1 = ids.iter().position(|x| *x == a.n1).unwrap() as u64;
+		let mut i2 = ids.iter().position(|x| *x == a.n2).unwrap() as u64;
+		let extra = version == 2 && a.funding.is_some();
+		if extra {
+			i2 |= 1 << 63;
+		}
+		put_bigsize(&mut out, i1);
+		put_bigsize(&mut out, i2);
+		if extra {
+			let mut add = Vec::new();
+			put_bigsize(&mut add, a.funding.unwrap());
+			out.extend_from_slice(&(add.len() as u16).to_be_bytes());
+			out.extend_from_slice(&add);
+		}
+	}
+	out.extend_from_slice(&(d.upds.len() as u32).to_be_bytes());
+	if d.upds.is_empty() {
+		return out;
+	}
+	out.extend_from_slice(&d.defaults.0.to_be_bytes());
+	out.extend_from_slice(&d.defaults.1.to_be_bytes());
+	out.extend_from_slice(&d.defaults.2.to_be_bytes());
+	out.extend_from_slice(&d.defaults.3.to_be_bytes());
+	out.extend_from_slice(&d.defaults.4.to_be_bytes());
+	let mut prev = 0u64;
+	for u in d.upds.iter() {
+		put_bigsize(&mut out, u.scid - prev);
+		prev = u.scid;
+		let mut flags = u.dir & 1;
+		if !u.enabled {
+			flags |= 2;
+		}
+		if u.incremental {
+			flags |= 0x80;
+		}
+		if u.cltv.is_some() {
+			flags |= 0x40;
+		}
+		if u.hmin.is_some() {
+			flags |= 0x20;
+		}
+		if u.base.is_some() {
+			flags |= 0x10;
+		}
+		if u.prop.is_some() {
+			flags |= 0x08;
+		}
+		if u.hmax.is_some() {
+			flags |= 0x04;
+		}
+		out.push(flags);
+		if let Some(v) = u.cltv {
+			out.extend_from_slice(&v.to_be_bytes());
+		}
+		if let Some(v) = u.hmin {
+			out.extend_from_slice(&v.to_be_bytes());
+		}
+		if let Some(v) = u.base {
+			out.extend_from_slice(&v.to_be_bytes());
+		}
+		if let Some(v) = u.prop {
+			out.extend_from_slice(&v.to_be_bytes());
+		}
+		if let Some(v) = u.hmax {
+			out.extend_from_slice(&v.to_be_bytes());
+		}
+	}
+	out
 }
 
 pub struct World {
@@ -427,6 +584,20 @@ impl World {
 					&& (!*adopt || (self.gs[*g].futures.is_empty() && self.gs[*g].model.pending_outstanding() == 0))
 			},
 			Action::Finish => !self.finished,
+			Action::Rgs { g, snap } => {
+				*g < ng
+					&& (snap.version == 1 || snap.version == 2)
+					&& !snap.upds.is_empty()
+					&& snap.upds.iter().all(|u| u.base.is_some())
+					&& snap.anns.len() <= 32
+					&& snap.upds.len() <= 64
+					&& snap.anns.iter().all(|a| {
+						self.uni.scid_of(a.scid).is_some() && a.a < self.uni.total_nodes() && a.b < self.uni.total_nodes() && a.a != a.b
+					}) && snap.upds.iter().all(|u| self.uni.scid_of(u.scid).is_some() && u.dir < 2)
+					&& (!snap.with_time
+						|| (!self.gs[*g].model.prune_ambiguous(self.now)
+							&& snap.latest_seen.saturating_sub(RGS_BACKDATE_SECS) as u64 + STALE_SECS != self.now))
+			},
 		}
 	}
 
@@ -484,6 +655,7 @@ impl World {
 			},
 			Action::RoundTrip { g, adopt } => self.do_roundtrip(*g, *adopt),
 			Action::Finish => self.do_finish(),
+			Action::Rgs { g, snap } => self.do_rgs(*g, snap),
 		}
 		if let Some(g) = target {
 			if !self.dead {
@@ -698,17 +870,7 @@ impl World {
 					gut.ts_keys.insert(key, mid);
 				},
 			}
-			match gut.cu_reg.get_mut(&desc.base) {
-				Some(rec) => {
-					if rec.desc != desc {
-						self.out.harness_errors.push(format!("two different channel_updates share uid {}", desc.base));
-					}
-					rec.trusted |= !signed;
-				},
-				None => {
-					gut.cu_reg.insert(desc.base, CuRec { desc: desc.clone(), trusted: !signed });
-				},
-			}
+			register_cu(&mut gut.cu_reg, &desc, !signed);
 		}
 		if desc.tampered {
 			self.out.bump("fault:cu_tampered_signature");
@@ -1076,6 +1238,107 @@ impl World {
 		}
 	}
 
+	fn rgs_desc(&self, snap: &RgsSpec) -> RgsD {
+		let mut anns: Vec<RgsAnnD> = snap
+			.anns
+			.iter()
+			.map(|a| {
+				let (x, y) = (self.uni.node_id[a.a], self.uni.node_id[a.b]);
+				let lesser_first = x < y;
+				let (n1, n2) = if lesser_first == a.sorted { (x, y) } else { (y, x) };
+				RgsAnnD {
+					scid: self.uni.scid_of(a.scid).expect("enabled"),
+					n1,
+					n2,
+					funding: if snap.version == 2 { a.funding } else { None },
+				}
+			})
+			.collect();
+		anns.sort_by_key(|a| a.scid);
+		anns.dedup_by_key(|a| a.scid);
+		let mut upds: Vec<RgsUpdD> = snap
+			.upds
+			.iter()
+			.map(|u| RgsUpdD {
+				scid: self.uni.scid_of(u.scid).expect("enabled"),
+				dir: u.dir,
+				enabled: !u.disabled,
+				incremental: u.incremental,
+				cltv: u.cltv,
+				hmin: u.hmin,
+				base: u.base,
+				prop: u.prop,
+				hmax: u.hmax,
+			})
+			.collect();
+		upds.sort_by_key(|u| (u.scid, u.dir));
+		upds.dedup_by_key(|u| (u.scid, u.dir));
+		RgsD {
+			chain_ok: snap.chain_ok,
+			latest_seen: snap.latest_seen,
+			time: if snap.with_time { Some(self.now) } else { None },
+			anns,
+			upds,
+			defaults: snap.defaults,
+		}
+	}
+
+	fn do_rgs(&mut self, g: usize, snap: &RgsSpec) {
+		self.order_ok = false;
+		self.out.bump("oracle:C17-6_rgs_result");
+		let d = self.rgs_desc(snap);
+		let bytes = encode_rgs(snap.version, &d);
+		self.out.add("bytes_rgs", bytes.len() as u64);
+		let gut = &mut self.gs[g];
+		let want = gut.model.rgs(&d);
+		// everything a snapshot carries comes from the trusted source
+		for a in d.anns.iter() {
+			let e = gut.ca_ok.entry((a.scid, a.n1, a.n2)).or_default();
+			if let Some(f) = a.funding {
+				e.trusted_caps.insert(f);
+			}
+		}
+		for cu in want.attempted.iter() {
+			register_cu(&mut gut.cu_reg, cu, true);
+		}
+		let rgs = lightning_rapid_gossip_sync::RapidGossipSync::new(gut.graph.clone(), self.logger.clone());
+		let time = d.time;
+		let res = catch(|| rgs.update_network_graph_no_std(&bytes, time).map_err(|e| format!("{:?}", e)));
+		let got = match res {
+			Ok(r) => r,
+			Err(p) => {
+				self.panic_violation("RapidGossipSync::update_network_graph_no_std", p);
+				return;
+			},
+		};
+		self.hist = fnv_extend(self.hist, &[got.is_ok() as u8]);
+		if want.ok {
+			self.out.bump("probe:rgs_snapshot_applied");
+			self.out.add("probe:rgs_channels_added", want.added.len() as u64);
+			self.out.add("probe:rgs_updates_applied", want.applied);
+			self.out.add("probe:rgs_incremental_skipped_unknown_direction", want.skipped_incremental);
+			self.out.add("fault:prune_channel_removed", want.prune.chans_removed);
+			self.out.add("fault:prune_direction_dropped", want.prune.dirs_dropped);
+		} else {
+			self.out.bump("fault:rgs_snapshot_rejected");
+		}
+		match (&got, want.ok) {
+			(Ok(t), true) if *t == snap.latest_seen => {},
+			(Err(_), false) => {},
+			_ => {
+				self.violate(
+					O_RGS,
+					format!("graph {}: snapshot returned {:?} but the model {} it ({:?})", g, got, if want.ok { "accepts" } else { "rejects" }, snap),
+				);
+				return;
+			},
+		}
+		let have = self.gs[g].graph.get_last_rapid_gossip_sync_timestamp();
+		if have != self.gs[g].model.last_rgs {
+			self.violate(O_RGS, format!("graph {}: last rapid-gossip-sync timestamp is {:?}, model {:?}", g, have, self.gs[g].model.last_rgs));
+		}
+	}
+
 	fn do_finish(&mut self) {
 		self.finished = true;
 		if self.cfg.mode != Mode::Order || self.gs.len() != 2 {
@@ -1214,7 +1477,7 @@ impl World {
 			};
 			if let Some(cap) = c.cap {
 				let real = self.uni.chan_by_scid(*scid).map(|i| self.uni.chans[i].capacity_sats);
-				if Some(cap) != real || !rec.utxo_matchable {
+				if !(rec.trusted_caps.contains(&cap) || (Some(cap) == real && rec.utxo_matchable)) {
 					return Some(format!(
 						"channel {} shows capacity {} but the chain holds {:?} (funding keys match: {})",
 						scid, cap, real, rec.utxo_matchable
@@ -1226,22 +1489,28 @@ impl World {
 					Some(d) => d,
 					None => continue,
 				};
-				let rec = match gut.cu_reg.get(&d.base) {
-					Some(r) => r,
-					None => return Some(format!("channel {} dir {} shows data of no delivered message: {:?}", scid, i, d)),
-				};
-				let r = &rec.desc;
-				let same = r.scid == *scid
-					&& r.dir as usize == i && r.ts == d.ts
-					&& r.enabled == d.enabled
-					&& r.cltv == d.cltv && r.hmin == d.hmin
-					&& r.hmax == d.hmax && r.prop == d.prop
-					&& r.chain_ok;
-				if !same {
-					return Some(format!("channel {} dir {} shows {:?}, which is not the content of message uid {}: {:?}", scid, i, d, d.base, r));
-				}
 				let src = if i == 0 { c.n1 } else { c.n2 };
-				if !(rec.trusted || (!r.tampered && r.signer == src)) {
+				let same = |r: &CuDesc| {
+					r.scid == *scid
+						&& r.dir as usize == i && r.ts == d.ts
+						&& r.enabled == d.enabled
+						&& r.cltv == d.cltv && r.hmin == d.hmin
+						&& r.hmax == d.hmax && r.prop == d.prop
+						&& r.chain_ok
+				};
+				let recs: &[CuRec] = gut.cu_reg.get(&d.base).map(|v| &v[..]).unwrap_or(&[]);
+				if !recs.iter().any(|r| same(&r.desc)) {
+					return Some(format!(
+						"channel {} dir {} shows {:?}, which is not the content of any delivered message (uid {}: {:?})",
+						scid,
+						i,
+						d,
+						d.base,
+						recs.iter().map(|r| &r.desc).collect::<Vec<_>>()
+					));
+				}
+				if !recs.iter().any(|r| same(&r.desc) && (r.trusted || (!r.desc.tampered && r.desc.signer == src))) {
+					let r = &recs.iter().find(|r| same(&r.desc)).unwrap().desc;
 					return Some(format!(
 						"channel {} dir {} reflects update uid {} whose signature does not verify against {} (signer {}, tampered {})",
 						scid,
